@@ -471,6 +471,33 @@ pub fn run(ctx: &Ctx) -> Report {
         judge_prog(&f2_prog(&seq, &litems, false), "F2-layout", &opts, l);
     }));
     levels.push(json!({"family": format!("F2-layout sequences of length <= {} over {} layout items", maxlen_l, kl), "cases": n2l}));
+    // F2-layout in a bank that starts at a negative address: positions are counted from the bank's start whatever its
+    // sign, alignment is to multiples of the unit count from address 0 (so the padding depends on the sign-correct
+    // remainder)
+    {
+        let nitems = vec![
+            Item::Data(Some(8), vec!["0x11".into()]),
+            Item::Data(Some(16), vec!["0x1234".into()]),
+            Item::Res("1".into()),
+            Item::Align("16".into()),
+            Item::Align("24".into()),
+            Item::Label("A".into()),
+            Item::Data(Some(8), vec!["A".into()]),
+        ];
+        let addrs: [i64; 4] = [-3, -4, -0x100, -1];
+        let kn = nitems.len() as u64;
+        let maxlen_n = if ctx.thorough { 5 } else { 4 };
+        let per = seq_count(kn, maxlen_n);
+        rep.absorb(par_run(per * addrs.len() as u64, |i, l| {
+            let d = decode(i, &[per, addrs.len() as u64]);
+            let seq = seq_decode(d[0], kn, maxlen_n);
+            let mut prog = f2_prog(&seq, &nitems, false);
+            prog.items.insert(0, Item::Bank("n".into()));
+            prog.items.insert(0, Item::Bankdef(BankSrc { name: "n".into(), bits: Some(8), addr: Some(addrs[d[1] as usize]), size: None, outp: Some(0), fill: false, labelalign: None }));
+            judge_prog(&prog, "F2-layout-negative-bank", &opts, l);
+        }));
+        levels.push(json!({"family": format!("F2-layout in a bank at a negative address: sequences of length <= {} over {} items x {} addresses", maxlen_n, kn, addrs.len()), "cases": per * addrs.len() as u64}));
+    }
     // F2-label-layout: layout directives whose operand depends on labels (forward and backward); the reference
     // iterates the layout to its self-consistent state and gives no verdict when a directive depends on its own effect
     let ditems = vec![
